@@ -303,6 +303,7 @@ def _check_row(ctx, get_module, row, rule, cfg):
     f = m.fn(row["fn"])
     code = CODES[row["code"]] if row.get("code") else None
     out_idx = _param(f, row["nowrite"], row) if row.get("nowrite") else None
+    must_idx = _param(f, row["mustwrite"], row) if row.get("mustwrite") else None
     runs = expand(m, f, row)
     problems = []
     inst = {"row": row["id"], "function": row["fn"], "module": row.get("mod", "inl"), "runs": len(runs), "config": cfg,
@@ -325,7 +326,7 @@ def _check_row(ctx, get_module, row, rule, cfg):
                 if not good:
                     problems.append(("violation", "argument %d of the call to %s is not %s" % (k, row["call"], json.dumps(spec)), ci))
     for label, assume, assume_def, pairs, start in runs:
-        pl = WritePlugin(m, f, out_idx, stop_on_success=not (expect_zero or expect_true))
+        pl = WritePlugin(m, f, out_idx if out_idx is not None else must_idx, stop_on_success=not (expect_zero or expect_true))
         ex = Explorer(f, assume=assume, assume_def=assume_def, plugin=pl, pairs=pairs, start_block=start or 0).run()
         nrets += len(ex.rets)
         if not ex.rets:
@@ -347,7 +348,9 @@ def _check_row(ctx, get_module, row, rule, cfg):
                 continue
             if expect_zero:
                 if singleton(av) != 0:
-                    problems.append(("violation", "G1: with %s the predicate can return true (%s) at %s" % (label, explore.fmt(av), where), t))
+                    problems.append(("violation", "G1: with %s the function can return %s (must be 0) at %s" % (label, explore.fmt(av), where), t))
+                elif must_idx is not None and s.env.get(("flag", "wrote")) is None:
+                    problems.append(("violation", "with %s the function returns success at %s without storing through '%s'" % (label, where, row["mustwrite"]), t))
                 continue
             if not is_empty(inter(av, const(0, av[1]))):
                 kindp = "violation" if singleton(av) == 0 else "violation-maybe"
@@ -357,7 +360,7 @@ def _check_row(ctx, get_module, row, rule, cfg):
                 codes.add(sv)
             else:
                 codes.add(None)
-            if out_idx is not None and s.env.get(("flag", "wrote")) is not None:
+            if out_idx is not None and must_idx is None and s.env.get(("flag", "wrote")) is not None:
                 wi = f.insts[s.env[("flag", "wrote")]]
                 problems.append(("violation", "G3: with %s a store through '%s' at %s happens before the return at %s" % (label, row["nowrite"], wi.where(), where), wi))
         if code is not None and code not in codes and None not in codes:
